@@ -1,0 +1,26 @@
+//go:build verif
+
+// Contracts for the in-memory engine, checked by /verif/kbv (build tag "verif"). Comments only.
+
+package memkv
+
+// the skip list is guarded by the store's mutex: a batch holds it from BeginBatchWrite to Commit
+//@ monitor store skl
+
+//@ func (*store).Get(ctx, key) (val, err)
+//@   props C19 C11
+//@   nosafety
+//@   modifies inferred:(*store).Get
+
+// the unlocked reader used by a batch (which holds the mutex from BeginBatchWrite to Commit)
+//@ func (*store).get(key) (val, err)
+//@   props C19 C11
+//@   nosafety
+//@   requires [lock-held] holds(s)
+//@   modifies inferred:(*store).get
+
+//@ func (*batch).get(key) (result)
+//@   props C19 C11
+//@   nosafety
+//@   requires [batch-holds-the-store-lock] b != nil && b.store != nil && holds_w(b.store)
+//@   modifies inferred:(*batch).get
